@@ -173,6 +173,24 @@ def run(chk):
         tgroups.append((len(cases), srcs))
         for s in srcs:
             cases.append(evalsrc_case(s, binds=STD_BINDS, ufuncs=[]))
+    # every binary operator on two constants of every pair of kinds (equal numbers of different types among them), spelled as
+    # literal op literal, variable op literal, literal op variable, variable op variable: the folder and the VM must agree
+    OPV = [("1", vi(1)), ("1u", vu(1)), ("1.0", vf(1.0)), ("true", vb(True)), ("0", vi(0)), ("2.5", vf(2.5)), ("'a'", vs("a")),
+           ("[1, 2]", vlist([vi(1), vi(2)])), ("[1u, 2.0]", vlist([vu(1), vf(2.0)])), ("null", VNULL), ("3u", vu(3)), ("-1", vi(-1)),
+           ("{'k': 1}", vmap([("k", vi(1))])), ("{'k': 1u}", vmap([("k", vu(1))])), ("''", vs("")), ("false", vb(False))]
+    opv = OPV if chk.tier != "quick" else OPV[:11]
+    for (ta, va) in opv:
+        for (tb, vb_) in opv:
+            for op in ["==", "!=", "<", "<=", ">", ">=", "+", "-", "*", "/", "%", "in", "||", "&&"]:
+                fam = [["%s %s %s" % (ta, op, tb), "oa %s %s" % (op, tb), "%s %s ob" % (ta, op), "oa %s ob" % op,
+                        "[%s %s %s][0]" % (ta, op, tb)]]
+                if ta == "1":       # a constant failure on either side
+                    fam.append(["(1 / 0) %s %s" % (op, tb), "(oa / 0) %s %s" % (op, tb), "(1 / 0) %s ob" % op, "(oa / 0) %s ob" % op])
+                    fam.append(["%s %s (1 / 0)" % (tb, op), "%s %s (oa / 0)" % (tb, op), "ob %s (1 / 0)" % op, "ob %s (oa / 0)" % op])
+                for srcs in fam:
+                    tgroups.append((len(cases), srcs))
+                    for s_ in srcs:
+                        cases.append(evalsrc_case(s_, binds=[("oa", va), ("ob", vb_)], ufuncs=[]))
     for t in TEMPLATES_CLOCK:
         srcs = [t.replace("N", "tv9"), t.replace("N", "now()"), t.replace("N", "timestamp()")]
         if "getFullYear" not in t:
